@@ -71,8 +71,9 @@ def call(op, bundle):
     if f == "set_vt":
         return dsw.set_vt(dna_sequence=bundle["strand"], vt_length=op["n"])
     if f == "repair_dna":
+        check = o.ref_vt(bundle["strand"], op["check_len"]) if op.get("check_len") else None
         return dsw.repair_dna(dna_sequence=bundle["corrupted"], accessor=acc, start_index=start, observed_length=k,
-                              vt_check=op.get("check"), has_indel=op["indel"], heap_size=1000)
+                              vt_check=check, has_indel=op["indel"], heap_size=1000)
     if f == "path_matching":
         text = bundle["corrupted"][: 2 * k + 1] if len(bundle["corrupted"]) >= 2 * k + 1 else bundle["corrupted"]
         return dsw.path_matching(dna_sequence=text, accessor=acc, previous_index=start,
